@@ -24,7 +24,7 @@ from lib import vcore
 
 HEADER = ("From Coq Require Import List ZArith Bool.\nImport ListNotations.\n"
           "From QV Require Import Base.Mat Base.Zi C03.ModelSamples C03.ModelProbs C03.ModelCollapse "
-          "C03.ModelResult C03.ModelCircuit C03.Check.\n")
+          "C03.ModelResult C03.ModelCircuit C03.ModelRepeated C03.Check.\n")
 
 LIMIT = 2 ** 50
 
@@ -260,6 +260,7 @@ class HistoryRun:
         self.ops_coq, self.outs_coq, self.log = [], [], []
         self.rec = Recorder(be)
         self.problems = []
+        self.handle_checks = []   # Coq booleans: MeasurementResult.frequencies() of the handles right after a frequency draw
 
     def execute(self, ints, j, nshots):
         psi = np.array(ints, dtype=complex) / 2 ** j
@@ -330,6 +331,15 @@ class HistoryRun:
             entry["drawn"] = draw
         if fdraw:
             entry["drawn_frequencies"] = dict(sorted(fdraw.items()))
+            # frequencies-first path: the global Counter was drawn and projected onto every register;
+            # the handles returned by circuit.add must now show that projection (direct spec check)
+            cfg = f"(mkcfg {self.n}%nat {nat_list_list(self.regs)})"
+            hfs = []
+            for m_, reg in zip(meas, self.regs):
+                hf = m_.result.frequencies(binary=False)
+                hfs.append(dict(sorted((int(k), int(v)) for k, v in hf.items())))
+                self.handle_checks.append(f"handle_freq_okb {cfg} {nat_list(reg)} {counter_lit(fdraw)} {counter_lit(hf)} {res.nshots}%nat")
+            entry["handle_frequencies_after_draw"] = hfs
         self.ops_coq.append(self._op(kind, r, binary, registers, qubits, draw, fdraw))
         self.outs_coq.append(out_term(kind, binary, registers, val, meas, self.scales[r]))
         self.log.append(entry)
@@ -364,22 +374,43 @@ class HistoryRun:
                 out.append(None)
         return out
 
+    def gate_caches(self):
+        """what the circuit's measurement gates finally hold (attribute peek): decimal samples and
+        frequencies per gate, as a Coq literal"""
+        items = []
+        for m_ in self.circuit.measurements:
+            s, f = m_.result._samples, m_.result._frequencies
+            if s is None:
+                sl = "None"
+            else:
+                rows = np.asarray(s).tolist()
+                sl = "Some " + nat_list([int("".join(str(int(b)) for b in row) or "0", 2) for row in rows])
+            fl = "None" if f is None else "Some " + counter_lit(f)
+            items.append(f"({sl}, {fl})")
+        return "[" + "; ".join(items) + "]"
+
     def coq_case(self):
         cfg = f"(mkcfg {self.n}%nat {nat_list_list(self.regs)})"
         h = "[" + ";\n   ".join(self.ops_coq) + "]"
         impl = "[" + ";\n   ".join(self.outs_coq) + "]"
         cands = "[" + "; ".join("None" if c is None else f"Some {nat_list(c)}" for c in self.candidates()) + "]"
+        hc = "[" + "; ".join(self.handle_checks) + "]" if self.handle_checks else "(@nil bool)"
         return (f"(let cfg := {cfg} in let h := {h} in let impl := {impl} in\n"
-                f"  (check_history cfg h impl, spec_verdicts cfg h impl {cands}))")
+                f"  (check_history cfg h impl ++ [gates_eqb (final_gates cfg h) {self.gate_caches()}], spec_verdicts cfg h impl {cands}, {hc}))")
+
+
+HANDLE_FLAGS = {}
 
 
 def parse_case(val):
-    """'([true; ...], [0; 1])' -> (bools, verdicts)"""
-    m = re.match(r"\(\[(.*?)\],\s*\[(.*?)\]\)", val.replace("%nat", ""))
+    """'([true; ...], [0; 1], [true])' -> (bools, verdicts); the third list (handle checks) is kept
+    in HANDLE_FLAGS[val] for judge_history"""
+    m = re.match(r"\(\[(.*?)\],\s*(?:\[(.*?)\]|nil),\s*(?:\[(.*?)\]|nil)\)", val.replace("%nat", ""))
     if not m:
         return None, None
     bools = [t == "true" for t in re.findall(r"true|false", m.group(1))]
-    return bools, parse_ints(m.group(2))
+    HANDLE_FLAGS[val] = [t == "true" for t in re.findall(r"true|false", m.group(3) or "")]
+    return bools, parse_ints(m.group(2) or "")
 
 
 def random_accessor(rng, hr, r, n):
@@ -548,13 +579,21 @@ def part_conversions(run, rng, be, count):
 # ------------------------------------------------------------------ part D: views of one result
 def one_view_history(run, be, i, replaying=False):
     crng = random.Random(f"{run.seed}:views:{i}")
-    n = crng.randint(1, 4)
+    freq_first = (i % 4 == 1)   # >= 2 registers, superposed state, frequencies(registers=True) before any samples()
+    n = crng.randint(2 if freq_first else 1, 4)
     regs = random_registers(crng, n)
+    while freq_first and len(regs) < 2:
+        regs = random_registers(crng, n)
     hr = HistoryRun(be, n, regs)
-    ints, j = dyadic_state(crng, n, deterministic=(i % 9 == 8))
-    nshots = crng.randint(1, 10)
+    ints, j = dyadic_state(crng, n, deterministic=(i % 9 == 8 and not freq_first))
+    while freq_first and sum(1 for a in ints if a != 0) < 3:
+        ints, j = dyadic_state(crng, n)
+    nshots = crng.randint(4 if freq_first else 1, 10)
     be.set_seed(crng.randrange(2 ** 31))
     hr.execute(ints, j, nshots)
+    if freq_first:
+        hr.accessor("freqs", 0, crng.random() < 0.5, True)
+        hr.accessor("freqs", 0, crng.random() < 0.5, False)
     nops = crng.randint(2, 8)
     for _ in range(nops):
         random_accessor(crng, hr, 0, n)
@@ -571,6 +610,11 @@ def judge_history(run, hr, val, key_prefix, info, shared_key=None):
     for kind, what in hr.problems:
         ok = False
         run.find(f"{key_prefix}:{kind}", what, info)
+    if not all(HANDLE_FLAGS.get(val, [])):
+        ok = False
+        run.find(key_prefix.split(":case")[0].split(":regs=")[0] + ":handle_frequencies",
+                 "after result.frequencies() drew the global frequencies, MeasurementResult.frequencies() of a register is not the projection of "
+                 "those shots onto the register or does not sum to nshots", info)
     if not bools[0]:
         ok = False
         run.find(key_prefix + ":sampler_contract", "a drawn shot has zero probability / wrong count (oracle premise of the theorems violated by the implementation's sampler)", info)
@@ -586,7 +630,7 @@ def judge_history(run, hr, val, key_prefix, info, shared_key=None):
             run.find(key_prefix + ":spec", f"views of result(s) {spec_bad} are not explained by one admissible list of shots", info)
     if not model_ok:
         ok = False
-        bad = [k - 2 for k, b in enumerate(bools) if k >= 2 and not b]
+        bad = [k - 2 for k, b in enumerate(bools[:-1]) if k >= 2 and not b] + (["gate caches"] if not bools[-1] else [])
         run.find(key_prefix + ":model", f"state-machine model disagrees with the implementation at operation(s) {bad}" +
                  ("" if spec_bad else " (the implementation's outputs satisfy the specification)"), info, concrete=bool(spec_bad))
     return ok
@@ -927,6 +971,8 @@ def part_repeated(run, rng, be, count):
         for label, op, out in view_terms(r, c.measurements, regs, "repeated", run, info):
             items.append((f"repeated:case{i}:{label}", f"explainsb {cfg} (@nil Z) {nat_list(S)} ({op}) ({out})"))
             meta.append((f"repeated:case{i}:{label}", info, label))
+            items.append((f"repeated:case{i}:{label}:model", f"out_eqb (rep_view {cfg} {nat_list(S)} ({op})) ({out})"))
+            meta.append((f"repeated:case{i}:{label}:model", info, label + ":model"))
     res, _ = run.coq_bools("repeated.v", HEADER, items, timeout=600)
     if res is None:
         run.find("repeated:coq-failed", "generated file did not compile", {}, concrete=False)
@@ -935,7 +981,10 @@ def part_repeated(run, rng, be, count):
     for label, info, view in meta:
         if not res[label]:
             ok = False
-            run.find(f"repeated:view:{view}", "a view of a repeated-execution result is not the same data as its samples", info)
+            if view.endswith(":model"):
+                run.find(f"repeated:model:{view}", "model of the repeated-execution views (C03/ModelRepeated.v) disagrees with the implementation", info, concrete=False)
+            else:
+                run.find(f"repeated:view:{view}", "a view of a repeated-execution result is not the same data as its samples", info)
     if ok and not any(f.key.startswith("repeated:") for f in run.findings):
         run.oblige("test:repeated_execution_views", True, "test")
     elif "repeated_execution_views_consistent" not in run.refuted:
